@@ -44,6 +44,7 @@ pub struct Recv {
     pub kind: &'static str, // status | acquire | attest | goalstate | sharedconfig | imds_instance | telemetry | echo
     pub answered_status: u16,
     pub seq: u64,
+    pub wall_recv_ns: i128,
 }
 
 #[derive(Clone, Debug, Default)]
@@ -480,7 +481,12 @@ fn handle(st: &Shared, host: &'static str, conn: u64, idx: usize, m: Msg) -> Ans
                 }
                 None => {
                     let body = format!("echo {} {} tok={}", m.method(), m.target(), token.clone().unwrap_or_default());
-                    simple(200, "text/plain", body.as_bytes())
+                    let mut a = simple(200, "text/plain", body.as_bytes());
+                    if m.method() == "HEAD" {
+                        let hs = vec![("Content-Type".to_string(), b"text/plain".to_vec())];
+                        a.bytes = http::build_response(200, "OK", &hs, Body::Len(body.as_bytes()), true);
+                    }
+                    a
                 }
             }
         }
@@ -507,7 +513,7 @@ fn handle(st: &Shared, host: &'static str, conn: u64, idx: usize, m: Msg) -> Ans
         let _ = vrt::try_with(|w| w.count(&format!("fault.host_{}", kind)));
     }
     let status = ans.status;
-    g.log.push(Recv { host, conn, idx_on_conn: idx, msg: m, sig, latched_at_recv, token, kind, answered_status: status, seq });
+    g.log.push(Recv { host, conn, idx_on_conn: idx, msg: m, sig, latched_at_recv, token, kind, answered_status: status, seq, wall_recv_ns: vrt::time::wall_now_ns() });
     let _ = vrt::try_with(|w| w.log("host", format!("{} conn={} #{} {} -> {}", host, conn, idx, kind, status)));
     g.notify.notify_waiters();
     ans
